@@ -573,7 +573,8 @@ func (e *Env) Connect(c int) {
 		ReceiptChan:             e.rchan,
 		PrivateKey:              e.key,
 	}
-	cn := &Conn{id: c, rh: rh, vc: hagallws.NewVerifConn(rh, fmt.Sprintf("client-%d", c)), open: true,
+	// connections carry one of three app keys (the session gauge is labelled by the creator's app key)
+	cn := &Conn{id: c, rh: rh, vc: hagallws.NewVerifConnApp(rh, fmt.Sprintf("client-%d", c), fmt.Sprintf("app-%d", c%3)), open: true,
 		pendingPose: map[uint32]*Req{}, pendingComp: map[[2]uint32]*Req{}, env: e}
 	e.conns[c] = cn
 	e.end(0)
